@@ -151,7 +151,9 @@ def run(ctx: Ctx) -> None:
     ctx.check("C10.R7", f"{M}:WSStream._send_wsproto_event", "send(Data(connection.send(event)))", ok, "serialised frames must be forwarded unmodified", sw)
 
     from ..core import Alias
-    from . import c09, c13
+    from . import c09, c11, c13
+
+    c11.run(Alias(ctx, "C10.R10", "the extensions the server enables for the connection (permessage-deflate) are exactly the ones it announces in the handshake response, on both carriers (C11.R5)", only={"C11.R5"}))
 
     c13.run(Alias(ctx, "C10.R8", "HTTP/1.1 carrier: bytes that followed the upgrade request are not lost and every buffered byte is passed through once (C13.R7)", only={"C13.R7"}))
     c09.run(Alias(ctx, "C10.R9", "HTTP/2 carrier: frames are queued in order on the stream's own buffer and the sender is woken before a blocking push (C09.R3/R9)", only={"C09.R3", "C09.R9"}))
